@@ -63,20 +63,6 @@ func (s *c06AucServer) BatchSnapshot(_ context.Context,
 	return &auctioneerrpc.BatchSnapshotResponse{BatchTx: buf.Bytes()}, nil
 }
 
-func c06CheckErrClass(err error) string {
-	switch {
-	case err == nil:
-		return "ok"
-	case strings.Contains(err.Error(), "loading pending batch failed"):
-		return "load"
-	case strings.Contains(err.Error(), "querying finalized batch TX failed"):
-		return "query"
-	case strings.Contains(err.Error(), "error removing pending batch artifacts"):
-		return "remove"
-	}
-	return "other:" + err.Error()
-}
-
 var c06ReconnSeq int
 
 // reconnVia runs a whole (re-)connection of a REAL auctioneer.Client along the
@@ -143,6 +129,31 @@ func (d *c06DB) reconnVia(path, rpc string, removeOk bool) (res string, queried 
 		case <-time.After(3 * time.Second):
 		}
 	}()
+	// classify tells which step of the pending batch check failed from the
+	// traces of the proxies (cleaner calls, BatchSnapshot queries) – never
+	// from the error text
+	queriedBefore := 0
+	classify := func(err error) string {
+		srv.qmu.Lock()
+		q := len(srv.queries)
+		srv.qmu.Unlock()
+		switch {
+		case err == nil:
+			return "ok"
+		case len(cl.calls) > 0 && !removeOk:
+			return "remove"
+		case len(cl.calls) > 0:
+			return "delete"
+		case q > queriedBefore:
+			return "query"
+		}
+		return "load"
+	}
+	mark := func() {
+		srv.qmu.Lock()
+		queriedBefore = len(srv.queries)
+		srv.qmu.Unlock()
+	}
 	finish := func(class string) (string, [][]byte) {
 		srv.qmu.Lock()
 		defer srv.qmu.Unlock()
@@ -152,6 +163,7 @@ func (d *c06DB) reconnVia(path, rpc string, removeOk bool) (res string, queried 
 	// handler makes it; a panic is an outcome, not the end of the harness
 	handle := func(e error) (err error, hung bool) {
 		cl.calls = nil
+		mark()
 		hres := make(chan error, 1)
 		go func() {
 			defer func() {
@@ -182,7 +194,7 @@ func (d *c06DB) reconnVia(path, rpc string, removeOk bool) (res string, queried 
 			}
 			calls++
 		}
-		return finish(c06CheckErrClass(err))
+		return finish(classify(err))
 	}
 	subErr := make(chan error, 1)
 	go func() {
@@ -196,12 +208,13 @@ func (d *c06DB) reconnVia(path, rpc string, removeOk bool) (res string, queried 
 		return "hung:first-connect", nil
 	}
 	if path == "first" {
-		return finish(c06CheckErrClass(err))
+		return finish(classify(err))
 	}
 	if err != nil {
 		return "sub-failed", nil
 	}
 	cl.calls = nil // only the calls of the reconnect are reported
+	mark()
 	streamsBefore := func() int { inner.mu.Lock(); defer inner.mu.Unlock(); return len(inner.streams) }()
 	inner.mu.Lock()
 	cur := inner.streams[len(inner.streams)-1]
